@@ -53,6 +53,15 @@ class PeeringScenario(Scenario):
     def delays(self, env: Env, req: Request) -> bool:
         return bool(self.params.get('timing')) and req.method == 'patch' and 'clusterkopfpeerings' in req.path
 
+    def serve_fault(self, env: Env, req: Request) -> str | None:
+        # scripted: the first keep-alive renewal of the named operator (not its initial touch) is answered with a 500; the client retries
+        who = self.params.get('flaky_keepalive')
+        if who and req.method == 'patch' and 'clusterkopfpeerings' in req.path and (req.opid or '').split('#')[0] == who \
+                and env.now >= float(self.params.get('flaky_after', 30.0)) and not env.counters.get('flaky'):
+            env.count('flaky')
+            return '500'
+        return None
+
     def allow_time_deviation(self, env: Env) -> bool:
         # only the latency of keep-alive requests is varied: the clock may move while one is in flight
         return bool(self.params.get('timing')) and any('clusterkopfpeerings' in r.path and r.method == 'patch' for r in env.world.pending) \
@@ -77,8 +86,12 @@ class PeeringScenario(Scenario):
         kopf.on.create('kopfexamples', id='c2', registry=reg)(scripted(env, 'c2', parse_script(['temp', 'ok'])))
         kopf.on.update('kopfexamples', id='u1', registry=reg)(scripted(env, 'u1', parse_script(['ok'])))
         kopf.daemon('kopfexamples', id='dm', registry=reg)(daemon_fn(env, 'dm', reaction='obeys'))
+        if self.params.get('slow_cleanup'):
+            # the operator's exit takes a while (its cleanup handlers run after everything else has stopped, the API session still open)
+            kopf.on.cleanup(id='cl', registry=reg)(scripted(env, f'cl-{ident}', parse_script([f"ok~{self.params['slow_cleanup']}"])))
         settings = make_settings(peering__standalone=False, peering__name='default', peering__priority=PRIORITIES[ident],
-                                 peering__lifetime=int(self.params.get('lifetime', LIFETIME)), peering__mandatory=True, networking__error_backoffs=())
+                                 peering__lifetime=int(self.params.get('lifetime', LIFETIME)), peering__mandatory=True,
+                                 networking__error_backoffs=tuple(self.params.get('error_backoffs', ())))
         op = Operator(env, opid, reg, settings, identity=ident)
         env.memo['ops'][ident] = op
         env.memo['running'][ident] = opid
@@ -210,6 +223,13 @@ class PeeringScenario(Scenario):
                     deadline = (seen - EPOCH).total_seconds() + int(r.get('lifetime', LIFETIME))
                     if deadline < t:
                         out.append(self.viol(env, 'own-record-expired', f"t={t}: running operator {ident}'s record expired at {deadline}", clause='keepalive'))
+            # a gracefully exited operator's record is gone from the moment operator() has returned, and stays gone
+            for ident in PRIORITIES:
+                te = next((tt for tt, k, p in env.obs if k == 'operator-exit' and p['op'].split('#')[0] == ident and p.get('how') == 'returned' and tt < t), None)
+                restarted = any(k == 'op-start' and p['ident'] == ident and te is not None and tt >= te for tt, k, p in env.obs if tt <= t)
+                if te is not None and not restarted and ident not in run and ident not in killed and ident in status and exact:
+                    out.append(self.viol(env, 'record-back-after-exit', f"t={t}: operator {ident} returned from a graceful exit at {te}, its record is in the peering object "
+                                                                        f"(again): {status.get(ident)}", clause='withdrawn'))
             if stable:
                 for ident in PRIORITIES:
                     if ident not in run and ident in status and ident not in killed:
@@ -221,6 +241,18 @@ class PeeringScenario(Scenario):
                     if until < t - 70 and f'ghost-{g}' in status and run:
                         out.append(self.viol(env, 'dead-record-not-cleaned', f"t={t}: the expired foreign record ghost-{g} (dead since {until}) is still there", clause='cleaned'))
         # -- safety over the whole run --
+        # an operator that has returned from a graceful exit writes nothing any more (its record stays withdrawn)
+        exited_pos: dict[str, tuple[int, float]] = {}
+        for i, (t, k, p) in enumerate(env.obs):
+            if k == 'operator-exit':
+                exited_pos.setdefault(p['op'], (i, t))
+            elif k == 'write' and p['actor'].startswith('op:'):
+                opid = p['actor'].split(':')[1]
+                if opid in exited_pos:      # by position in the observation log, not by (equal) virtual time
+                    wr = w.writes[p['idx']]
+                    rec_back = wr['post'] is not None and opid.split('#')[0] in ((wr['post'].get('status') or {}))
+                    out.append(self.viol(env, 'write-after-exit', f"t={t}: operator {opid} returned at {exited_pos[opid][1]}, yet a {wr['verb']} of {wr['kind']}/{wr['name']} by it "
+                                                                  f"landed afterwards{' and put its peering record back' if rec_back else ''}", clause='withdrawn', record_back=rec_back))
         # an operator pauses (closes its watch while it keeps running) only for a LIVE peer of higher or equal priority
         if exact:
             timeline = [(wr['t'], wr['post']) for wr in w.writes if wr['kind'] == 'clusterkopfpeerings' and wr['post'] is not None]
@@ -354,6 +386,13 @@ def run(tier: str, seed: int) -> CheckResult:
     hist = [build(h, sp, j) for h in histories(depth) for sp, j in ((100.0, 'min'), (100.0, 'max'), (20.0, 'min'))]
     # operators configured with a lifetime other than the documented default of records that do not state theirs (60)
     hist += [build(h, sp, 'min', lifetime=lt) for h in histories(depth) if any(a[0] == 'ghost' for a in h) for sp in (100.0, 20.0) for lt in (30, 120)]
+    # a graceful exit while a keep-alive renewal is in its retry backoff (the API answered 500): the record must stay withdrawn
+    for stop_at in (66.0, 67.5, 68.0, 69.0):
+        user = [(0.0, 'start', 'A'), (2.0, 'create', 'a'), (10.0, 'start', 'B'), (stop_at, 'stop', 'B'), (stop_at + 20.0, 'check', 'after'), (stop_at + 100.0, 'check', 'final')]
+        hist.append(PeeringScenario(user=user, horizon=stop_at + 105.0, history=[['start', 'B'], ['stop', 'B']], spacing=0.0, jitter='min',
+                                    flaky_keepalive='B', flaky_after=30.0, error_backoffs=[3.0]))
+        hist.append(PeeringScenario(user=user, horizon=stop_at + 105.0, history=[['start', 'B'], ['stop', 'B']], spacing=0.0, jitter='min',
+                                    flaky_keepalive='B', flaky_after=30.0, error_backoffs=[3.0], slow_cleanup=6))
     reps = [build(h, 100.0, j, timing=True, grid=1.0) for h in ([('start', 'B')], [('start', 'B'), ('kill', 'B')], [('start', 'C')]) for j in ('min', 'max')]
     if tier == 'quick':
         groups = [('histories', hist, 0, 120.0), ('keepalive-latency', reps, 1, 60.0)]
